@@ -781,46 +781,54 @@ def run(ck):
                       "numpy oracle (H2, H4 sto-3g, <= 8 qubits)"]
     ck.notes["outside_theorems"] = ["the optimiser (simulate)", "spectral theorem", "molecular integrals (C04)", "encodings (C03)",
                                     "sampled / noisy evaluation", "get_rdm"]
-    facts = None
+    tables = "regenerated from /repo"
     try:
         facts = vqe_tables.extract(REPO)
-        ck.write_gen("VqeTables", vqe_tables.emit(facts))
     except TranslateError as e:
         ck.violation("C08/translator/vqe_tables", "translator no longer recognises vqe_solver.py: %s" % e,
                      {"kind": "translator", "error": str(e)}, found_input=False)
-    if facts is not None:
+        facts = dict(vqe_tables.FALLBACK)
+        tables = "FALLBACK constants of translator/vqe_tables.py (the translator refused the source: %s)" % e
+    ck.notes["tables"] = tables
+    ck.notes["source_facts"] = {k: facts[k] for k in ("restore_in_finally", "opexp_uses_reference", "defl_key_is_ansatz_width",
+                                                       "scbk_case_sensitive", "defaults_guarded_by_scbk", "opexp_circuit",
+                                                       "defl_key_width", "scbk_test")}
+    import time
+    tm = {}
+
+    def guarded(name, f, *a):
+        """every stream runs, whatever happened before; a crash of one stream is reported and the next one starts"""
+        t = time.time()
+        try:
+            f(*a)
+        except Exception as ex:
+            import traceback
+            tb = traceback.format_exc()
+            ck.violation("C08/harness/%s-did-not-complete" % name, "stream %s stopped: %r" % (name, ex),
+                         {"kind": "crash", "stream": name, "traceback": tb[-3000:]}, found_input=False)
+        tm[name] = round(time.time() - t, 1)
+
+    def proof_step():
+        ck.write_gen("VqeTables", vqe_tables.emit(facts))
         res = ck.prove()
         if not res.ok:
-            ck.proof_violation(res)
-        ck.notes["source_facts"] = {k: facts[k] for k in ("restore_in_finally", "opexp_uses_reference", "defl_key_is_ansatz_width",
-                                                           "scbk_case_sensitive", "opexp_circuit", "defl_key_width", "scbk_test")}
-    else:
-        facts = {"defl_key_is_ansatz_width": True, "opexp_uses_reference": False, "restore_in_finally": False}
+            ck.proof_violation(res, "(tables: %s)" % tables)
+    guarded("prove", proof_step)
     try:
         with contextlib.redirect_stdout(io.StringIO()):
             import tangelo  # noqa
             from tangelo.algorithms.variational import VQESolver  # noqa
     except Exception as e:
         ck.violation("C08/import", "tangelo cannot be imported: %r" % e, {"kind": "import"}, found_input=False)
+        ck.notes["timing_s"] = tm
         return
     quick = ck.tier == "quick"
-    model_ok = ck.proof is None or not str(ck.proof.failed or "").startswith("generated file")
-    import time
-    tm = {"prove": round(time.time() - ck.t0, 1)}
-    t = time.time()
-    if model_ok:
-        witness_cases(ck, facts)
-        run_model_stream(ck, facts, 28 if quick else 240)
-    else:
-        ck.notes["model_evaluation"] = "skipped (generated table unavailable)"
-    tm["model"] = round(time.time() - t, 1)
-    t = time.time()
-    restore_cases(ck)
-    run_solver_stream(ck, solver_configs(ck.rng, ck.tier), 1 if quick else 3)
-    tm["solver"] = round(time.time() - t, 1)
-    t = time.time()
-    run_override_stream(ck, ck.tier)
-    tm["overrides"] = round(time.time() - t, 1)
+    # the model evaluation (Chem/VqeRun.v) does not depend on the generated file: it runs with the variant selected by `facts`
+    guarded("witnesses", witness_cases, ck, facts)
+    guarded("model", run_model_stream, ck, facts, 28 if quick else 240)
+    guarded("restore", restore_cases, ck)
+    guarded("solver", lambda: run_solver_stream(ck, solver_configs(ck.rng, ck.tier), 1 if quick else 3))
+    guarded("overrides", run_override_stream, ck, ck.tier)
     ck.notes["timing_s"] = tm
 
 
